@@ -33,6 +33,7 @@ type Ctx struct {
 
 	NumPkgs int
 	lockInfo *LockInfo
+	ctorOnly map[*ssa.Function]bool
 	NumFns  int
 }
 
